@@ -196,6 +196,12 @@ class SArr(core._ArrLike):
     def copy(self):
         return SArr(Buf(self.flat()), self.shape, dtype=self.dtype)
 
+    def flatten(self):
+        vals = self.flat()
+        return SArr(Buf(vals), (len(vals),), dtype=self.dtype)
+
+    ravel = flatten
+
     def astype(self, t):
         dt = _dtype_of(t)
         vals = self.flat()
@@ -249,6 +255,9 @@ class SArr(core._ArrLike):
         """-> ('int', i) | ('slice', start, step, count) | ('fancy', [i...]) | ('sym', SymInt)"""
         n = self.shape[axis]
         if isinstance(key, SymInt):
+            k = engine().determined(key.e)
+            if k is not None:
+                return ("int", self._norm(k, n))
             return ("sym", key)
         if isinstance(key, slice):
             start, stop, step = key.indices(n)
@@ -525,6 +534,9 @@ class SymRow:
     def materialise(self):
         n = self.base.shape[1]
         return SArr(Buf([self[j] for j in range(n)]), (n,), dtype=self.base.dtype)
+
+    def copy(self):
+        return self.materialise()
 
     def __getitem__(self, col):
         b = self.base
